@@ -233,6 +233,20 @@ Theorem error_remainder_is_suffix :
 Proof. exact error_remainder_is_suffix_pf. Qed.
 Print Assumptions error_remainder_is_suffix.
 
+(* the same for the file-based framer while its loader leaves the file position at the end after each EOFError (an
+   invariant kept by such a loader), and for the compressors when unused_data is the tail of the completing chunk *)
+Theorem error_remainder_is_suffix_generic :
+  (forall P limit (load : bytes -> lres P) expected st chunk, fb_at_end st ->
+      event_suffix (fb_acc st ++ chunk) (ffeed (fb_framer limit load expected) st chunk)) /\
+  (forall P limit (load : bytes -> lres P) expected st chunk st',
+      (forall content pos, load content = LEof pos -> pos = length content) ->
+      ffeed (fb_framer limit load expected) st chunk = Need st' -> fb_at_end st') /\
+  (forall P D dnew (dd : D -> bytes -> (D * bytes) + Z) deof dunused expected (inner : bytes -> ores P) inner_declared st chunk,
+      (forall d c d' out, dd d c = inl (d', out) -> deof d' = true -> suffix_of (dunused d') c) ->
+      event_suffix chunk (ffeed (cz_framer D dnew dd deof dunused expected inner inner_declared) st chunk)).
+Proof. exact error_remainder_is_suffix_generic_pf. Qed.
+Print Assumptions error_remainder_is_suffix_generic.
+
 (* ------------------------------------------------------------------------------------------------------------------
    BufferedStreamDataConsumer.__save_remainder_in_buffer raises ValueError when the remainder is longer than the receive
    buffer (modelled in Run/C06.v as the event [9, 2]).  Through the generic buffered wrapper the generator is sent
